@@ -278,6 +278,7 @@ void execute_compiler(const Plan& plan) {
     Model scopes[2];
     std::vector<std::string> history;
     bool failed = fn == nullptr;
+    int functions = 1;
     for (size_t i = 0; i < plan.ops.size() && !failed; i++) {
       const Op& op = plan.ops[i];
       sim::begin_op(op, i);
@@ -290,6 +291,10 @@ void execute_compiler(const Plan& plan) {
       }
       if (data.empty()) { sim::end_op(); continue; }
       int scope = int(op.a[3] & 1);
+      // Some constants are requested while no function is open (between end_func() and the next add_func()): they go out with
+      // the next function's pool (local scope) or with the global pool.
+      bool between_functions = (op.a[3] & 6) == 6 && functions < 3 && plan.get("multi_func", 0) != 0;
+      if (between_functions) { if (arch == 2) acc.ret(); else xcc.ret(); if (cc.end_func() != Error::kOk) { failed = true; sim::end_op(); continue; } functions++; sim::count("c19.probe.constant_requested_between_functions"); }
       BaseMem mem;
       (void)cc._new_const(Out<BaseMem>(mem), ConstPoolScope(scope), data.data(), data.size());
       if ((mem.is_none() || !mem.has_base_label()) && sim::run_faults_fired_total() > 0) {
@@ -305,6 +310,7 @@ void execute_compiler(const Plan& plan) {
       else {
         handed.push_back(Handed{mem.base_id(), size_t(mem.offset()), data});
         history.push_back(data);
+        if (between_functions && !cc.add_func(FuncSignature::build<void>())) { failed = true; sim::end_op(); continue; }
         // keep the constant referenced by an instruction so that the pool is serialised
         if (arch == 2) { a64::Gp r = acc.new_gp64(); acc.adr(r, Label(mem.base_id())); }
         else { x86::Gp r = xcc.new_gp64(); xcc.lea(r, mem.as<x86::Mem>()); }
@@ -352,6 +358,7 @@ Plan generate_common(uint64_t seed, bool thorough, bool allow_reset) {
   p.set("builder", int64_t(cfg.chance(1, 3)));
   p.set("abandoned", cfg.chance(1, 2) ? 0 : int64_t(1 + cfg.below(2)));
   p.set("extra_labels", int64_t(cfg.below(14)));
+  p.set("multi_func", int64_t(cfg.below(2)));
   p.set("prefix_nops", int64_t(cfg.below(70)));
   int fault_class = int(cfg.below(3));
   p.set("fault_class", fault_class);
@@ -365,7 +372,7 @@ Plan generate_common(uint64_t seed, bool thorough, bool allow_reset) {
     op.a[0] = int64_t(op.kind == kAdd ? (size_bias == 1 ? r.below(4) : size_bias == 2 ? 3 + r.below(4) : r.below(7)) : r.below(100000));
     op.a[1] = int64_t(r.chance(1, 3) ? r.below(6) : (r.next() & 0x7fffffffffffll));
     op.a[2] = int64_t(r.below(1000));
-    op.a[3] = int64_t(r.below(4));
+    op.a[3] = int64_t(r.below(8));
     if (fault_class) {
       uint32_t den = fault_class == 1 ? 16 : 4;
       if (r.chance(1, den)) op.faults.push_back(sim::Fault{sim::kFaultArena, uint32_t(r.below(6)), 0});
